@@ -245,9 +245,12 @@ pub fn run_case(rng: &mut Rng, case_seed: u64, processes: usize, argv_extra: &[S
     // ---- (b) separate processes (different ASLR layout, different hash seeds of the symbol interner)
     if processes > 0 {
         let exe = std::env::current_exe().unwrap();
+        let has_symbols = h.ops.iter().any(|o| matches!(o, COp::Add(t) if t.split(|c: char| c == ' ' || c == '(' || c == ')').any(|tok| ["alpha", "beta", "gamma", "s17", "omega", "k"].contains(&tok))) || matches!(o, COp::Rewrite(rs) if rs.iter().any(|r| r.0 == "sym-intro")));
         let mut outs = vec![];
-        for _ in 0..processes {
-            let o = std::process::Command::new(&exe).arg("C20").arg(format!("one={case_seed}")).arg("transcript=1").args(argv_extra).output();
+        // the last replay process interns unrelated symbols first ("what other threads are doing" in a real program)
+        for k in 0..processes {
+            let pre = if k + 1 == processes && processes >= 2 { 40 } else { 0 };
+            let o = std::process::Command::new(&exe).arg("C20").arg(format!("one={case_seed}")).arg("transcript=1").arg(format!("preintern={pre}")).args(argv_extra).output();
             match o {
                 Ok(o) => outs.push(String::from_utf8_lossy(&o.stdout).lines().filter(|l| !l.starts_with('{')).map(|l| l.to_string()).collect::<Vec<_>>()),
                 Err(e) => {
@@ -257,10 +260,16 @@ pub fn run_case(rng: &mut Rng, case_seed: u64, processes: usize, argv_extra: &[S
             }
             out.inc("process_replays");
         }
+        if has_symbols {
+            out.inc("histories_with_symbol_payloads");
+        }
         for (i, o) in outs.iter().enumerate().skip(1) {
             if *o != outs[0] {
                 let k = o.iter().zip(outs[0].iter()).position(|(a, b)| a != b).unwrap_or(o.len().min(outs[0].len()));
-                out.fail(Fail::new("transcript-differs", "process-replay", format!("process replay {i} differs from process replay 0 at line {k}: `{}` vs `{}`", o.get(k).cloned().unwrap_or_default(), outs[0].get(k).cloned().unwrap_or_default()), cj.clone()));
+                let pre = i + 1 == processes && processes >= 2;
+                // a difference that needs both symbol payloads and a different interning history is the known interner-order dependence
+                let sig = if pre && has_symbols { "symbol-interning-order" } else if pre { "process-replay-after-unrelated-interning" } else { "process-replay" };
+                out.fail(Fail::new("transcript-differs", sig, format!("process replay {i}{} differs from process replay 0 at line {k}: `{}` vs `{}`", if pre { " (which interned 40 unrelated symbols first)" } else { "" }, o.get(k).cloned().unwrap_or_default(), outs[0].get(k).cloned().unwrap_or_default()), cj.clone()));
                 return out;
             }
         }
@@ -268,7 +277,9 @@ pub fn run_case(rng: &mut Rng, case_seed: u64, processes: usize, argv_extra: &[S
         let tl: Vec<String> = outs[0].iter().filter_map(|l| l.strip_prefix("T ").map(|x| x.to_string())).filter(|l| !l.starts_with("dump-")).collect();
         if tl != base {
             let k = tl.iter().zip(base.iter()).position(|(a, b)| a != b).unwrap_or(tl.len().min(base.len()));
-            out.fail(Fail::new("transcript-differs", "process-vs-thread", format!("process transcript differs from the in-process baseline at line {k}: `{}` vs `{}`", tl.get(k).cloned().unwrap_or_default(), base.get(k).cloned().unwrap_or_default()), cj.clone()));
+            // (this worker process has interned the symbols of earlier cases: same classification as above)
+            let sig = if has_symbols { "symbol-interning-order" } else { "process-vs-thread" };
+            out.fail(Fail::new("transcript-differs", sig, format!("process transcript differs from the in-process baseline at line {k}: `{}` vs `{}`", tl.get(k).cloned().unwrap_or_default(), base.get(k).cloned().unwrap_or_default()), cj.clone()));
             return out;
         }
         let dump_lines = outs[0].iter().filter(|l| !l.starts_with("T ")).count();
@@ -285,6 +296,9 @@ pub fn run(args: &Args, rep: &mut Rep) {
     if args.param_u("transcript", 0) == 1 {
         // child mode: print the transcript of one case (dump output goes to stdout in place)
         let cs = args.one.unwrap_or(0);
+        for i in 0..args.param_u("preintern", 0) {
+            let _: Symbol = format!("unrelated_symbol_{i}").parse().unwrap();
+        }
         let mut rng = Rng::new(cs);
         let h = gen_chist(&mut rng, true);
         let _ = transcript(&h, true, &mut |_| {});
